@@ -280,6 +280,21 @@ func probeIndex(args []string) int {
 		return 2
 	}
 	defer func() { x.e.Close() }()
+	if os.Getenv("VH_RACE") != "" {
+		tg := []ctag{{"a", "x"}}
+		x.createSeries("m1", tg)
+		id1, _ := x.idx().GetSeriesIdBySeriesKey(indexKeyOf("m1", tg))
+		fmt.Println("clear:", x.idx().ClearCache())
+		id1b, _ := x.idx().GetSeriesIdBySeriesKey(indexKeyOf("m1", tg))
+		x.createSeries("m1", tg)
+		id2, _ := x.idx().GetSeriesIdBySeriesKey(indexKeyOf("m1", tg))
+		x.e.IndexFlush()
+		id3, _ := x.idx().GetSeriesIdBySeriesKey(indexKeyOf("m1", tg))
+		ks, _ := x.showKeys("m1", "")
+		ids, _ := x.showIDs("m1", "")
+		fmt.Printf("id1=%x after-clear=%x id2=%x id3=%x keys=%q ids=%x\n", id1, id1b, id2, id3, ks, ids)
+		return 0
+	}
 	type ser struct {
 		m    string
 		tags map[string]string
